@@ -19,8 +19,8 @@
 // ------------------------------------------------------------------ what a test does
 enum Where { W_CTOR, W_SETUP, W_BODY, W_TEARDOWN, W_DTOR, W_PRE, W_POST, W_N };
 static const char* WHERE[] = { "constructor", "setup", "body", "teardown", "destructor", "plugin-pre", "plugin-post" };
-enum Act { A_NONE, A_RAISE, A_EXIT, A_UEXIT, A_FAILCHECK, A_ABORT, A_SEGV, A_STOPS, A_FAIL_THEN_EXIT0 };
-static const char* ACT[] = { "none", "raise", "exit", "_exit", "failing-check", "abort", "null-write", "raise-SIGSTOP", "fail-then-_exit0" };
+enum Act { A_NONE, A_RAISE, A_EXIT, A_UEXIT, A_FAILCHECK, A_ABORT, A_SEGV, A_STOPS, A_PLUGIN_REPORTS };
+static const char* ACT[] = { "none", "raise", "exit", "_exit", "failing-check", "abort", "null-write", "raise-SIGSTOP", "plugin-reports-failure" };
 struct Plan { int act = A_NONE; int where = W_BODY; int arg = 0; int after = A_NONE; int after_arg = 0; };   // `after`: what follows k stops
 
 static void perform(int act, int arg) {
@@ -31,7 +31,6 @@ static void perform(int act, int arg) {
     case A_FAILCHECK: FAIL("scripted failure"); break;
     case A_ABORT: abort(); break;
     case A_SEGV: { volatile int* p = nullptr; *p = 1; break; }
-    case A_FAIL_THEN_EXIT0: _exit(0); break;
     default: break;
     }
 }
@@ -61,8 +60,10 @@ public:
 class PlanPlugin : public TestPlugin {
 public:
     PlanPlugin() : TestPlugin("PlanPlugin") {}
-    void preTestAction(UtestShell& t, TestResult&) CPPUTEST_OVERRIDE { act_at(plan_of(&t), W_PRE); }
-    void postTestAction(UtestShell& t, TestResult&) CPPUTEST_OVERRIDE { act_at(plan_of(&t), W_POST); }
+    // a plugin reports its error straight to the TestResult (as the mock and leak plugins do), the test's own checks pass
+    static void report(UtestShell& t, TestResult& r, int where) { const Plan& p = plan_of(&t); if (p.act == A_PLUGIN_REPORTS && p.where == where) r.addFailure(TestFailure(&t, "error reported by a plugin action")); }
+    void preTestAction(UtestShell& t, TestResult& r) CPPUTEST_OVERRIDE { report(t, r, W_PRE); act_at(plan_of(&t), W_PRE); }
+    void postTestAction(UtestShell& t, TestResult& r) CPPUTEST_OVERRIDE { report(t, r, W_POST); act_at(plan_of(&t), W_POST); }
 };
 
 // ------------------------------------------------------------------ recording / scripted seams
@@ -179,7 +180,7 @@ static int expected_from_intent(const Plan& p) {
     case A_RAISE: return sig_effect(p.arg);
     case A_UEXIT: return p.arg != 0;
     case A_EXIT: return p.arg != 0 ? 1 : -1;            // exit(0) runs exit handlers, which may themselves die
-    case A_FAILCHECK: case A_ABORT: case A_SEGV: return 1;
+    case A_FAILCHECK: case A_ABORT: case A_SEGV: case A_PLUGIN_REPORTS: return 1;
     case A_STOPS: {
         int after;
         switch (p.after) { case A_NONE: after = 0; break; case A_FAILCHECK: after = 1; break; case A_RAISE: after = sig_effect(p.after_arg); break; case A_UEXIT: after = p.after_arg != 0; break; default: after = -1; }
@@ -196,7 +197,7 @@ static std::string plans_json(const std::vector<Plan>& ps) { std::vector<std::st
 
 static void add_followers(vf::Rng& r, std::vector<Plan>& plans) {
     int n = r.range(1, 3);
-    for (int i = 0; i < n; i++) { Plan f; if (r.chance(30)) { f.act = A_FAILCHECK; f.where = (int) r.below(3) + 1; } plans.push_back(f); }
+    for (int i = 0; i < n; i++) { Plan f; if (r.chance(30)) { f.act = A_FAILCHECK; f.where = (int) r.below(3) + 1; } else if (r.chance(15)) { f.act = A_PLUGIN_REPORTS; f.where = r.chance(50) ? W_PRE : W_POST; } plans.push_back(f); }
 }
 
 static void judge_real(vf::Ctx& c, const std::vector<Plan>& plans, const char* keyclass) {
@@ -277,7 +278,8 @@ static void sec_misc(vf::Ctx& c) {
     std::string sig;
     for (int i = 0; i < ntests; i++) {
         Plan p; p.where = (int) c.rng.below(W_N);
-        switch (c.rng.below(7)) {
+        switch (c.rng.below(8)) {
+        case 7: p.act = A_PLUGIN_REPORTS; p.where = c.rng.chance(50) ? W_PRE : W_POST; break;
         case 0: p.act = A_FAILCHECK; if (p.where == W_CTOR || p.where == W_DTOR) p.where = W_BODY; break;
         case 1: p.act = A_ABORT; break;
         case 2: p.act = A_SEGV; break;
